@@ -367,6 +367,16 @@ def oracle(case, ctx):
                     d = sut(dec_nested, back) if not isinstance(back, Raised) else back
                     if isinstance(d, Raised) or not np.array_equal(d[0], A):
                         discs.append(D("values_differ:%s->Ns" % what, "level names %s: %s" % (kw, repr(d)[:200])))
+    # the instance level is found by its NAME: a frame whose levels are ordered (time, instance)
+    # - rows as before - gives the same nested frame
+    if not discs:
+        mi = sut(dp.from_nested_to_multi_index, starts["Ns"].copy(), IX, TX)
+        if not isinstance(mi, Raised):
+            for cells_np in (False, True):
+                back = sut(dp.from_multi_index_to_nested, mi.swaplevel(0, 1), instance_index=IX, cells_as_numpy=cells_np)
+                d = sut(dec_nested, back) if not isinstance(back, Raised) else back
+                if isinstance(d, Raised) or d[0].shape != A.shape or not np.array_equal(d[0], A):
+                    discs.append(D("values_differ:MI(levels swapped)->%s" % ("Na" if cells_np else "Ns"), "instances %s: %s" % (inst[:3], repr(d)[:200])))
     # check_X coercions agree with the conversions
     r = sut(check_X, starts["Ns"], coerce_to_numpy=True)
     if isinstance(r, Raised) or not (isinstance(r, np.ndarray) and np.array_equal(r, A)):
